@@ -149,6 +149,27 @@ fn check_entry(rep: &Report, e: &Entry, outcomes: &Mutex<HashSet<u64>>) {
                 rep.violation(&format!("an element the operator does not work on is not returned bit-identical / {opname} [{dn}]"), json!({"def": e.def, "input": t, "output": format!("{:?}", base.1)}));
             }
             seen.insert(hash_of(&bits4(base.1)));
+            // --- the same tuple through containers that do not store the dimensions the operator does not use
+            // (time for a 3D conversion, height and time for a plane one): still transformed and counted
+            let dmat = if dir == Fwd { e.deps } else { e.deps_inv.unwrap_or(e.deps) };
+            if dmat[3] == 0 && e.writes & 0b1000 == 0 {
+                let mut d3 = vec![Coor3D([t[0], t[1], t[2]])];
+                rep.eval(1);
+                let r = catch(|| ctx.apply(op, if dir == Fwd { Fwd } else { Inv }, &mut d3));
+                let ok = matches!(r, Ok(Ok(1))) && (0..3).all(|k| bits(d3[0].0[k]) == bits(base.1[k]));
+                if !ok {
+                    rep.violation(&format!("a tuple inside the domain is not transformed and counted when presented in a 3D container / {opname} [{dn}]"), json!({"def": e.def, "input": t, "result": format!("{r:?}"), "output": format!("{:?}", d3[0].0), "expected": format!("{:?}", &base.1[..3])}));
+                }
+                if dmat[2] == 0 && e.writes & 0b1100 == 0 {
+                    let mut d2 = vec![Coor2D([t[0], t[1]])];
+                    rep.eval(1);
+                    let r = catch(|| ctx.apply(op, if dir == Fwd { Fwd } else { Inv }, &mut d2));
+                    let ok = matches!(r, Ok(Ok(1))) && (0..2).all(|k| bits(d2[0].0[k]) == bits(base.1[k]));
+                    if !ok {
+                        rep.violation(&format!("a tuple inside the domain is not transformed and counted when presented in a 2D container / {opname} [{dn}]"), json!({"def": e.def, "input": t, "result": format!("{r:?}"), "output": format!("{:?}", d2[0].0), "expected": format!("{:?}", &base.1[..2])}));
+                    }
+                }
+            }
             // --- all 16 NaN masks
             for mask in 1u8..16 {
                 let mut x = *t;
